@@ -54,7 +54,16 @@ func wideSpec(r *rng.R) *wl.Spec {
 			for j := 0; j < n; j++ {
 				rule.R = append(rule.R, wl.Sym{I: rr.Intn(len(s.Terms))})
 			}
-			s.Rules = append(s.Rules, rule)
+			// sometimes as one of the first rules (low rule number)
+			pos := len(s.Rules)
+			if rr.Chance(1, 2) {
+				pos = rr.Intn(2)
+			}
+			s.Rules = append(s.Rules[:pos], append([]wl.Rule{rule}, s.Rules[pos:]...)...)
+			// and enough rules after it that two-digit rule numbers exist
+			for len(s.Rules) < 13 && rr.Chance(2, 3) {
+				s.Rules = append(s.Rules, wl.Rule{L: rr.Intn(len(s.NTs)), R: []wl.Sym{{I: rr.Intn(len(s.Terms))}, {I: rr.Intn(len(s.Terms))}}, Prec: -1})
+			}
 		}
 		// a use-only literal that is not used does not exist
 		usedT := map[int]bool{}
